@@ -1,12 +1,16 @@
 import Resolvo.Drv.Util
 import Resolvo.Drv.Mapping
 import Resolvo.Drv.Amo
+import Resolvo.Drv.Solve
 open Resolvo.Drv
 
 def runCase (c : Case) : List String :=
   match c.family with
   | "mapping" => runMapping c.lines
   | "amo" => runAmo c.lines
+  | "solve" => runSolve c.lines
+  | "soft" => runSolve c.lines
+  | "conflictfree" => runSolve c.lines
   | f => [s!"unknown-family {f}"]
 
 partial def readAll (h : IO.FS.Stream) (acc : Array String) : IO (Array String) := do
